@@ -20,10 +20,11 @@ class DlMain(FactRule):
             return ts
         n = callee_name(call)
         self.seen.add(n)
+        # the scan and the copy mark chunks failed (-1): a reset that came before them does not cover those
         if n == 'zck_find_valid_chunks':
-            ts = ts | frozenset(['scanned'])
+            ts = (ts - frozenset(['reset'])) | frozenset(['scanned'])
         elif n == 'zck_copy_chunks':
-            ts = ts | frozenset(['copied'])
+            ts = (ts - frozenset(['reset'])) | frozenset(['copied'])
         elif n == 'zck_reset_failed_chunks':
             ts = ts | frozenset(['reset'])
         elif n == 'ftruncate':
@@ -74,8 +75,9 @@ class DlMain(FactRule):
                 self.violate(ctx, 'range-before-copy', 'zck_get_missing_range() reachable before zck_copy_chunks(): '
                              'chunks present in the local source would be fetched', inst='copy-first')
             if 'reset' not in ts:
-                self.violate(ctx, 'range-before-reset', 'zck_get_missing_range() reachable without '
-                             'zck_reset_failed_chunks(): chunks marked failed by the scan/copy are never requested',
+                self.violate(ctx, 'range-before-reset', 'zck_get_missing_range() reachable without a '
+                             'zck_reset_failed_chunks() after the last scan/copy: chunks they marked failed (a source '
+                             'chunk whose bytes do not match its checksum) are never requested',
                              inst='reset-failed')
             if 'missing>0' not in ts:
                 self.violate(ctx, 'range-unconditional', 'range requested without a preceding zck_missing_chunks() > 0 '
